@@ -10,7 +10,8 @@ noerr:
 		case err = <-db.compErrSetC:
 			switch {
 			case err == nil:
-			case err == ErrReadOnly, errors.IsCorrupted(err): goto hasperr
+			case err == ErrReadOnly: db.compWriteLocking = true; goto hasperr
+			case errors.IsCorrupted(err): goto hasperr
 			default: goto haserr
 			}
 		case <-db.closeC: return
@@ -21,7 +22,8 @@ haserr:
 		case err = <-db.compErrSetC:
 			switch {
 			case err == nil: goto noerr
-			case err == ErrReadOnly, errors.IsCorrupted(err): goto hasperr
+			case err == ErrReadOnly: db.compWriteLocking = true; goto hasperr
+			case errors.IsCorrupted(err): goto hasperr
 			default:
 			}
 		case <-db.closeC: return
@@ -61,7 +63,8 @@ structure MCfg where
   noerrRecv : Bool
   /-- `noerr`: `case err == nil:` (empty: stay) -/
   noerrNil : Bool
-  /-- `noerr`: `err == ErrReadOnly` is in the case list that does `goto hasperr` -/
+  /-- `noerr`: a case with `err == ErrReadOnly` does `goto hasperr` (whether it also sets `compWriteLocking` is
+  `Locks.Cfg.noerrROSetsLock`: that variable belongs to the lock model) -/
   noerrRO : Bool
   /-- `noerr`: `errors.IsCorrupted(err)` is in the case list that does `goto hasperr` -/
   noerrCorrupt : Bool
@@ -209,6 +212,9 @@ theorem offLock_hasperr (m : MCfg) (e : Eh) (h : offLock m e = true) : e = .hasp
 @[simp] theorem closes_asCoded (e : Eh) :
     closes .asCoded e = true ↔ e = .noerr ∨ e = .haserr ∨ e = .hasperr := by
   cases e <;> simp [closes, MCfg.asCoded]
+
+@[simp] theorem asCoded_noerrRO : MCfg.asCoded.noerrRO = true := rfl
+@[simp] theorem asCoded_haserrRO : MCfg.asCoded.haserrRO = true := rfl
 
 /-- the transitions of the machine as coded -/
 def nextC : Eh → EK → Eh
